@@ -31,10 +31,12 @@ class SetMutator(CollectionAttrMutator):
         try:  # If set supports lookup, try that first (e.g. KeyedSet)
             return (value_or_index, self.collection[value_or_index])
         except TypeError:
-            return (
-                value_or_index,
-                value_or_index,
-            )
+            # Plain sets do not support lookup; find the stored member (the
+            # look-up value merely compares equal to it).
+            for member in self.collection:
+                if member == value_or_index:
+                    return (value_or_index, member)
+            return (value_or_index, value_or_index)  # pragma: no cover
 
     def _inserter(self, index, item, replace=True):  # pylint: disable=arguments-differ
         if not check_type(item, self.attr_spec.item_type):
